@@ -44,7 +44,9 @@ PROFILES = [
     ("fmm", [{"family": "laplace", "op": "single_layer"}, {"family": "helmholtz", "op": "single_layer", "wavenumber": H}, {"family": "modified_helmholtz", "op": "single_layer", "wavenumber": 1.3}], ["P1", "DP0"], ["P1", "DP0"]),
 ]
 
-GRID_FAMILIES = ["tetrahedron", "octahedron", "cube", "screen2", "lshape", "torus", "fan", "two_tetrahedra", "screen1", "pinched", "moebius"]
+GRID_FAMILIES = ["tetrahedron", "octahedron", "cube", "screen2", "lshape", "torus", "fan", "two_tetrahedra", "screen1", "pinched", "moebius", "bicone12"]
+# grids used only for the (cheap) colouring oracle: also meshes with a vertex of very high valence
+COLOUR_ONLY_FAMILIES = GRID_FAMILIES + ["bicone40", "bicone70", "bicone40"]
 ALL_KINDS = ["DP0", "DP1", "P1", "RWG", "SNC", "DUAL0", "DUAL1", "BC", "RBC"]
 
 
@@ -191,8 +193,10 @@ class C16Check(object):
         # O2 is cheap: sample the colouring sentence on further (also larger) grids and every space kind
         extra = []
         for _ in range(2 if self.tier == "quick" else 4):
-            fam = r.choice(GRID_FAMILIES)
+            fam = r.choice(COLOUR_ONLY_FAMILIES)
             ref = r.choice([0, 1, 1, 2]) if fam in ("tetrahedron", "octahedron", "screen1", "fan", "lshape", "cube") else r.choice([0, 1])
+            if fam.startswith("bicone") and fam != "bicone12":
+                ref = 0
             g = {"family": fam, "refinements": ref, "tseed": r.randrange(1 << 30), "renumber": r.random() < 0.8,
                  "rotate": r.random() < 0.8, "affine": False}
             rawx = self._raw(g)
